@@ -46,6 +46,8 @@ mod project;
 mod project_worker;
 #[path = "c08/shadow.rs"]
 mod shadow;
+#[path = "c08/strings.rs"]
+mod strings;
 use common::*;
 
 const RULE: &str = "a case is non-trivial if it is not a verbatim valid document: a mutated / random / hostile text, a document that reaches a later stage (check, printers), a rendered diagnostic, a config text or a loader call sequence (distinct by text)";
@@ -1137,6 +1139,8 @@ fn main() {
     let search = args.extra.get("search").is_some();
     // ---- corpus first
     ctx.parse_stream(&corpus_parse());
+    // escapes at the facing ends of neighbouring string literals: exhaustive pairs, minimal texts
+    ctx.parse_stream(&strings::boundary_pairs());
     for t in CONFIG_TEXTS {
         ctx.config_case(t);
     }
@@ -1168,6 +1172,20 @@ fn main() {
                 parse_batch.push(("op", t.clone(), format!("mutation:{l}")));
                 mutated_ops.push(t);
             }
+        }
+        // neighbouring string literals / the same construct in adjacent tokens
+        parse_batch.push(strings::random_strings(&mut rng));
+        if let Some(t) = strings::inject_strings(&mut rng, &sdl) {
+            parse_batch.push(("ts", t, "string-inject".into()));
+        }
+        let o = &ops[rng.below(ops.len())];
+        match strings::inject_strings(&mut rng, o) {
+            Some(t) => parse_batch.push(("op", t, "string-inject".into())),
+            None => parse_batch.push(strings::random_strings(&mut rng)),
+        }
+        let (k, src) = if rng.coin() { ("ts", &sdl) } else { ("op", o) };
+        if let Some(t) = strings::adjacent_repeat(&mut rng, src, &mutate::lex) {
+            parse_batch.push((k, t, "adjacent-repeat".into()));
         }
         for _ in 0..4 {
             parse_batch.push((if rng.coin() { "op" } else { "ts" }, mutate::soup(&mut rng), "token-soup".into()));
